@@ -35,9 +35,9 @@ STABLE_BLENDS = ["NORMAL", "MULTIPLY", "SCREEN", "DARKEN", "LIGHTEN", "LINEAR_DO
                  "EXCLUSION", "SUBTRACT", "OVERLAY", "HARD_LIGHT"]
 EDITS = ["touch", "rotate", "del-bottom", "del-top", "hide-all", "top-opacity", "group-top", "clear", "hide-top"]
 SCALE = {8: 255, 16: 65535}
-DELTA = 6e-6          # float32 noise of the whole compositing pipeline, absolute, in value units
+DELTA = 1e-6          # float32 noise of the whole compositing pipeline, absolute, in value units (observed: < 1e-7)
 DELTA_ARITH = 6e-7    # float32 noise of flatten + scale alone
-DELTA32 = 2e-5
+DELTA32 = 2e-6
 OLD_FILL = {8: 60, 16: 60 * 257, 32: 0x3E800000}      # the merged image the document starts with (ImageData.new)
 NCH = {"L": 1, "RGB": 3, "CMYK": 4}
 
@@ -99,7 +99,10 @@ def random_case(rng, nprng):
     budget = [rng.randrange(1, 7)]
     recipe = cc.gen_list(rng, nprng, size, NCH[mode], STABLE_BLENDS, budget, 0)
     cc.name_nodes(recipe)
-    return {"kind": "pixdoc", "shape": "random", "mode": mode, "depth": depth, "size": list(size), "plane": rng.random() < 0.4,
+    plane = rng.random() < 0.4
+    return {"kind": "pixdoc", "shape": "random", "mode": mode, "depth": depth, "size": list(size), "plane": plane,
+            # an extra channel that is NOT a transparency (no merged-transparency block, layers present): kept as it is
+            "kept": (not plane) and rng.random() < 0.2,
             "compression": rng.choice(["RAW", "RLE", "ZIP", "ZIP_WITH_PREDICTION"]),
             "store": "no-composite" if rng.random() < 0.15 else "plain",
             "edit": rng.choice(EDITS[:-2] + ["touch", "rotate", "hide-top"]), "recipe": recipe}
@@ -129,7 +132,7 @@ def build(case):
     depth = case["depth"]
     recs, chans = [], []
     pixdoc._records(copy.deepcopy(case["recipe"]), depth, Compression.RAW, recs, chans, [0])
-    header = PSDImage._make_header(case["mode"] + ("A" if case["plane"] else ""), tuple(case["size"]), depth)
+    header = PSDImage._make_header(case["mode"] + ("A" if case["plane"] or case.get("kept") else ""), tuple(case["size"]), depth)
     info = LayerInfo(layer_count=len(recs), layer_records=LayerRecords(recs), channel_image_data=ChannelImageData(chans))
     blocks = TaggedBlocks()
     if case["plane"]:
@@ -332,6 +335,8 @@ def reference_verdict(case, res):
     step = 0.5 / SCALE[depth] if depth in SCALE else 1e-6
     tol = cc.TOL_COLOR + step
     transparent = case["plane"]
+    if case.get("kept") and res.get("old") is not None and stored[n] != res["old"][n]:
+        return {"what": "kept-plane", "plane": n, "stored": stored[n][:8].hex(), "expected": res["old"][n][:8].hex()}
     flat = sc * sa[..., None] + (1.0 - sa[..., None])
     worst = None
     for y in range(H):
